@@ -96,9 +96,10 @@ def mk_system(M, m, n, kkind, bkind, lbkind, ubkind, *, A_sample=None):
     base = {"none": lambda: None, "scalar": lambda: M.real("base", (1,), sample=lambda r, s: r.uniform(0.1, 0.5, size=s)),
             "vec": lambda: M.real("base", (m,), sample=lambda r, s: r.uniform(0.1, 0.5, size=s))}[bkind]()
     lb = {"default": lambda: None, "zero": lambda: np.zeros(n), "pos": lambda: M.real("lb", (n,), sample=lambda r, s: r.uniform(0.05, 0.3, size=s)),
-          "any": lambda: M.real("lb", (n,), sample=lambda r, s: r.uniform(-0.5, 0.3, size=s))}[lbkind]()
+          "any": lambda: M.real("lb", (n,), sample=lambda r, s: r.uniform(-0.5, 0.3, size=s)),
+          "poswide": lambda: M.real("lb", (n,), sample=lambda r, s: r.choice([0.1, 1.5, 2.0], size=s))}[lbkind]()
     ub = {"default": lambda: None, "inf": lambda: np.full(n, np.inf), "fin": lambda: M.real("ub", (n,), sample=lambda r, s: r.uniform(1.0, 3.0, size=s))}[ubkind]()
-    if lbkind == "pos":
+    if lbkind in ("pos", "poswide"):
         for v in lb:
             M.assume(v >= 0)
     lbl = list(lb) if lb is not None else [0] * n
